@@ -91,6 +91,20 @@ def _calls_itself(f, name):
     return False
 
 
+def _returns_of(st) -> list:
+    """Return statements of st, not descending into nested functions"""
+    out = []
+    stack = [st]
+    while stack:
+        n = stack.pop()
+        if isinstance(n, ast.Return):
+            out.append(n)
+        for c in ast.iter_child_nodes(n):
+            if not isinstance(c, (ast.FunctionDef, ast.AsyncFunctionDef, ast.Lambda, ast.ClassDef)):
+                stack.append(c)
+    return out
+
+
 def _contains_return(st) -> bool:
     todo = [st]
     while todo:
@@ -265,7 +279,7 @@ class Inliner:
                 return meths[fx.attr]
         return None
 
-    def expand(self, call, helper, bound, generator=None, tail=False):
+    def expand(self, call, helper, bound, generator=None, tail=False, cont=None):
         """-> (statements, result expression | None)"""
         self.counter += 1
         tag = f"{helper.name}_{self.counter}"
@@ -328,6 +342,43 @@ class Inliner:
                 r = _Y().visit(st_)
                 out += r if isinstance(r, list) else [r]
             return pre + out, None
+        if cont is not None:
+            # `if [not] helper(..): BODY` with BODY leaving the function: the helper's truthy (falsy) constant returns become BODY,
+            # its final other return becomes "go on after the if"
+            then_body, neg = cont
+            if not body:
+                return None
+            if not isinstance(body[-1], ast.Return):
+                body = body + [ast.Return(value=ast.Constant(value=None), lineno=0, col_offset=0)]
+            rets = [n for st_ in body for n in _returns_of(st_)]
+            if not all(n.value is None or isinstance(n.value, ast.Constant) for n in rets):
+                return None
+
+            def takes(n):
+                return bool(n.value.value if n.value is not None else None) != neg
+            if any((not takes(n)) and n is not body[-1] for n in rets):
+                return None
+
+            class _R(ast.NodeTransformer):
+                def visit_Return(self, n):
+                    return copy.deepcopy(then_body) if takes(n) else []
+
+                def visit_FunctionDef(self, n):
+                    return n
+
+                def visit_Lambda(self, n):
+                    return n
+            out = []
+            for st_ in body:
+                r = _R().visit(st_)
+                out += r if isinstance(r, list) else ([r] if r is not None else [])
+            # an emptied block must stay a block
+            for n in [x for st_ in out for x in ast.walk(st_)]:
+                for fld in ("body", "orelse"):
+                    v = getattr(n, fld, None)
+                    if fld == "body" and isinstance(v, list) and not v and isinstance(n, (ast.If, ast.For, ast.While, ast.With, ast.Try)):
+                        n.body = [ast.Pass(lineno=0, col_offset=0)]
+            return pre + out, None
         if tail:
             # `return helper(..)`: the helper's own returns are the caller's returns; nothing to lower
             if not body or not isinstance(body[-1], (ast.Return, ast.Raise)):
@@ -381,6 +432,23 @@ class Inliner:
                     ex = self.expand(st.iter, r_[0], r_[1], generator=(st.target.id, st.body))
                     if ex is not None:
                         self.sites[id(r_[0])] = self.sites.get(id(r_[0]), 0) + 1
+                        stmts[i:i + 1] = ex[0] or [ast.Pass(lineno=st.lineno, col_offset=0)]
+                        changed = True
+                        continue
+            # `if [not] <helper call>: ...; return/raise` (no else)
+            if isinstance(st, ast.If) and not st.orelse and st.body and isinstance(st.body[-1], (ast.Return, ast.Raise)):
+                t_ = st.test
+                neg_ = isinstance(t_, ast.UnaryOp) and isinstance(t_.op, ast.Not)
+                c_ = t_.operand if neg_ else t_
+                r_ = self.resolve(c_, cname) if isinstance(c_, ast.Call) else None
+                if r_ is not None and r_[0] is not owner and not _is_generator(r_[0]) and self.sites.get(id(r_[0]), 0) < MAX_SITES \
+                        and not any(isinstance(x, (ast.Break, ast.Continue)) for b_ in st.body for x in ast.walk(b_)):
+                    ex = self.expand(c_, r_[0], r_[1], cont=(st.body, neg_))
+                    if ex is not None:
+                        self.sites[id(r_[0])] = self.sites.get(id(r_[0]), 0) + 1
+                        for n in ex[0]:
+                            for x in ast.walk(n):
+                                x._inlined_from = r_[0].name
                         stmts[i:i + 1] = ex[0] or [ast.Pass(lineno=st.lineno, col_offset=0)]
                         changed = True
                         continue
